@@ -159,6 +159,8 @@ def check_case(ctx, case):
                     ctx.count("skipped:W_near_tie_or_near_null_median")
                     continue
                 ctx.count("W_compared")
+                if any(v - mm == 0 for v in dd):
+                    ctx.count("W_compared_with_differences_equal_to_null_median")
                 if not rel(gz, z, 1e-9, 1e-9):
                     ctx.violation("W:z_wrong", {"order": tag, "got": gz, "want": z, "n": len(dz)})
                 if abs(gp - p) > 1e-9 or not (0 <= gp <= 1):
@@ -205,8 +207,16 @@ def cases(draw, max_events=80):
     c = draw(G.setups(max_cells=20, max_mags=4, max_events=max_events, lo=-8, hi=2))
     n = len(c["rates"])
     c["rates"] = [r if r > 0 else float("%.6g" % 10 ** draw(st.floats(-8, 2))) for r in c["rates"]]
-    mode = draw(st.sampled_from(["indep", "perturbed", "scaled"]))
-    if mode == "indep":
+    mode = draw(st.sampled_from(["indep", "perturbed", "scaled", "equal_totals", "equal_totals"]))
+    if mode == "equal_totals":
+        # dyadic rates (exact sums) and B = A with some pairs of bins swapped: totals are bit-equal, so the null median
+        # (N_A - N_B)/N is exactly 0 and events in unswapped bins have a log-rate difference exactly equal to it
+        c["rates"] = [draw(st.integers(1, 640)) / 64.0 for _ in range(n)]
+        rb = list(c["rates"])
+        for _ in range(draw(st.integers(1, max(1, n // 2)))):
+            i, j = draw(st.integers(0, n - 1)), draw(st.integers(0, n - 1))
+            rb[i], rb[j] = rb[j], rb[i]
+    elif mode == "indep":
         rb = [float("%.6g" % 10 ** draw(st.floats(-8, 2))) for _ in range(n)]
     elif mode == "perturbed":
         rb = [float("%.6g" % (r * draw(st.sampled_from([1.0, 1.0, 2.0, 0.5, 1.1])))) for r in c["rates"]]
